@@ -752,7 +752,21 @@ class Unit:
                 r = self.models.member_access(self, n, b)
                 if r is not None: return r
             raise Unsupported('member %s of a type outside the unit (in %s)' % (n.get('name'), self.cur))
-        return '%s%s%s' % (b, '->' if n.get('isArrow') else '.', self.alias_names.get(n['name'], n['name']))
+        txt = '%s%s%s' % (b, '->' if n.get('isArrow') else '.', self.alias_names.get(n['name'], n['name']))
+        # guarded-by discipline (spec key ('guarded_by', <C struct>): {field: condition over B = pointer to the object}):
+        # every read or write of the field, anywhere in the unit, is preceded by an assertion of the condition
+        rec = self.parent.get(md)
+        if rec is not None and rec.get('id') in self.qname:
+            g = self.spec.get(('guarded_by', self.mangle(self.qname[rec['id']])))
+            if g and n['name'] in g and not self.spec.get(('unguarded', self.cur)):
+                self.used_keys.add(('guarded_by', self.mangle(self.qname[rec['id']])))
+                bp = b if n.get('isArrow') else self.addr_text(b)
+                fn = 'v_guarded__%s__%s' % (self.mangle(self.qname[rec['id']]), n['name'])
+                if fn not in self.emitted_protos:
+                    self.emitted_protos[fn] = 'static inline void %s(_Bool ok) { __CPROVER_assert(ok, "guarded-by: %s is only accessed with its guard held"); }' % (fn, n['name'])
+                    self.emitted_funcs[fn] = ''
+                return '(*(%s(%s), &(%s)))' % (fn, g[n['name']].replace('B', '(%s)' % bp), txt)
+        return txt
 
     def cast_to(self, n, inner):
         ct, _ = self.ctype_node(n)
